@@ -320,8 +320,11 @@ class ScalarDistribution(BaseDistribution):
         self._meta['is_numerical'] = True
         self._meta['is_sparse'] = None
 
-        if pmf is None and not isinstance(outcomes, dict):
-            # If we make it through the checks, the outcomes will be integers.
+        space_given = sample_space is not None
+        if pmf is None and not isinstance(outcomes, dict) and not space_given:
+            # If we make it through the checks, the outcomes will be integers
+            # in increasing order, and so will the sample space built from
+            # them. (A given sample space still has to be sorted and checked.)
             sort = False
 
         outcomes, pmf, skip_sort = self._init(outcomes, pmf, base)
@@ -352,7 +355,7 @@ class ScalarDistribution(BaseDistribution):
         ##           makes things harder, since we can't assume the outcomes
         ##           and sample space are sorted.  Is there a valid use case
         ##           for an unsorted sample space?
-        if sort and len(outcomes) > 0 and not skip_sort:
+        if sort and len(outcomes) > 0 and not (skip_sort and not space_given):
             outcomes, pmf, index = reorder(outcomes, pmf, self._sample_space)
         else:
             index = dict(zip(outcomes, range(len(outcomes))))
